@@ -223,3 +223,17 @@ Example ex_restart_after_failed_step :
   option_map hdr_of (served (run f1_cfg (firstn 5 rs_history)) 2) = option_map hdr_of (served before 2) /\
   option_map s_app (g_state (img_of (run f1_cfg rs_history))) = Some 4.
 Proof. vm_compute. repeat split. Qed.
+
+(* FROM TRANSLATED CODE.  The step and the start-up the histories above are made of are what the Go functions
+   themselves do: Manager.publishBlockInternal refines [step] (Props/C04.v, C04_translated_publish_refines_step_full)
+   and getInitialState refines [boot] — translated from /repo's source on every run and evaluated by Model/GoLite.v
+   against scripted collaborators (Check/GoLiteBoot.v, for ALL worlds): the translated start-up fails exactly when the
+   model's does and saves a block — the genesis block, once — exactly when the model's first write is that block; a
+   stored state is adopted as it is, no block above it is looked for or adopted. *)
+From Verif Require Proofs.GoLiteBootRefine Check.GoLiteBoot.
+Theorem C01_translated_boot_refines_model_full : forall (c : cfg) (m : img) (ic : option root),
+  exists o, GoLiteBoot.run_boot (GoLiteBootRefine.bworld_of c m ic) = Some o /\
+            GoLiteBootRefine.failed o = GoLiteBootRefine.model_failed (boot c m true ic) /\
+            GoLiteBootRefine.saved_heights o = GoLiteBootRefine.model_block_heights (boot c m true ic).
+Proof. exact GoLiteBootRefine.translated_boot_refines_model. Qed.
+Print Assumptions C01_translated_boot_refines_model_full.
